@@ -356,3 +356,97 @@ def targets(prop, replay=None):
         for variant in ('plain', 'unique', 'default-config'):
             T.append(Target('api/%s[%s]' % (which, variant), q, scen_api(which, variant), post_api, RA, prop, replay=replay))
     return T
+
+
+# ---- the convenience wrappers: every named argument reaches the constructor parameter of the SAME name, then compute, then the result
+WRAPPERS = {
+    'tempo_compute': ('tempo.tempo_compute', 'tempo.Tempo', ['system', 'bath', 'initial_state', 'start_time', 'end_time', 'parameters', 'tolerance', 'unique',
+                                                            'backend_config', 'progress_type', 'name', 'description'], 'get_dynamics'),
+    'pt_tempo_compute': ('pt_tempo.pt_tempo_compute', 'pt_tempo.PtTempo', ['bath', 'start_time', 'end_time', 'parameters', 'unique', 'tolerance', 'process_tensor_file',
+                                                                         'overwrite', 'backend_config', 'progress_type', 'name', 'description'], 'get_process_tensor'),
+    'gibbs_tempo_compute': ('tempo.gibbs_tempo_compute', 'tempo.GibbsTempo', ['system', 'bath', 'parameters', 'backend_config', 'progress_type', 'name', 'description'], 'get_state'),
+}
+
+
+def wrapper_registry(which):
+    qual, cls, names, getter = WRAPPERS[which]
+    R = Registry()
+
+    @model
+    def m_ctor(ip, args, kw):
+        ip.ghost['wrapped_ctor'] = (list(args), kw)
+        return Obj('Wrapped', {})
+
+    @model
+    def m_compute(ip, args, kw):
+        ip.log.append(('compute', list(args[1:]), kw))
+        return Vc('compute_result')
+
+    @model
+    def m_get(ip, args, kw):
+        ip.log.append(('get',))
+        return Vc('the_result')
+    R.models[cls] = m_ctor
+    R.models['Wrapped.compute'] = m_compute
+    R.models['Wrapped.' + getter] = m_get
+    return R
+
+
+def scen_wrapper(which):
+    qual, cls, names, getter = WRAPPERS[which]
+
+    def scen(ip, repo):
+        vals = {}
+        for n in names:
+            if n in ('unique', 'overwrite'):
+                vals[n] = Bool('arg_' + n)
+            elif n in ('start_time', 'end_time', 'tolerance'):
+                vals[n] = Real('arg_' + n)
+            elif n in ('name', 'description', 'progress_type'):
+                vals[n] = '<%s>' % n
+            else:
+                vals[n] = Vc('arg_' + n)
+                ip.assume(vals[n] != NONE)
+        return {'args': [], 'kwargs': dict(vals), 'vals': vals, 'which': which, 'inputs': {}}
+    return scen
+
+
+def post_wrapper(ip, ctx, out):
+    if not expect_no_other_exception(ip, out):
+        return
+    qual, cls, names, getter = WRAPPERS[ctx['which']]
+    rec = ip.ghost.get('wrapped_ctor')
+    w = ctx['which']
+    if rec is None:
+        return ip.prove('api/%s/constructs-the-method-object' % w, z3.BoolVal(False))
+    args, kw = rec
+    repo = ip.repo if hasattr(ip, 'repo') else None
+    from pyvc.modules import Repo
+    init = (repo or Repo()).resolve(cls).find('__init__')
+    params = [p.arg for p in init.node.args.args][1:]
+    wrong = {}
+    for p in params:
+        if p in ctx['vals']:
+            got = kw.get(p) if p in kw else None
+            want = ctx['vals'][p]
+            same = (got == want) if isinstance(want, str) else (got is want)
+            if not same:
+                wrong[p] = repr(got)
+    ip.prove('api/%s/arguments-reach-the-parameter-of-the-same-name' % w, z3.BoolVal(not wrong), {'constructor parameters that got another value': wrong})
+    comp = [e for e in ip.log if e[0] == 'compute']
+    okc = len(comp) == 1
+    if okc:
+        a, k = comp[0][1], comp[0][2]
+        pt = k.get('progress_type', None)
+        okc = pt == '<progress_type>'
+        if w == 'tempo_compute':
+            end = a[0] if a else k.get('end_time')
+            okc = okc and end is ctx['vals']['end_time']
+    ip.prove('api/%s/computes-once-with-the-callers-target' % w, z3.BoolVal(bool(okc)), {'compute calls': repr(comp)[:300]})
+    order = [e[0] for e in ip.log if e[0] in ('compute', 'get')]
+    ip.prove('api/%s/returns-the-result-of-the-computation' % w, z3.And(z3.BoolVal(order == ['compute', 'get']), out.value == Vc('the_result') if is_z3(out.value) else z3.BoolVal(False)))
+
+
+def wrapper_targets(prop, which, replay=None):
+    qual = WRAPPERS[which][0]
+    return [Target('api/%s' % which, qual, scen_wrapper(which), post_wrapper, wrapper_registry(which), prop, replay=replay)]
